@@ -193,7 +193,11 @@ def _same_model(spellings):
             m = model_description("y ~ " + v)
         except Exception as ex:
             return f"{spellings[0]!r} is accepted but {v!r} raises {type(ex).__name__}: {ex}", True
-        if len(m.terms) != len(ref.terms) or any(not (a == b and hash(a) == hash(b)) for a, b in zip(ref.terms, m.terms)):
+        try:
+            same = len(m.terms) == len(ref.terms) and all(a == b and hash(a) == hash(b) for a, b in zip(ref.terms, m.terms))
+        except Exception as ex:     # noqa: BLE001 - comparing the terms of two spellings of one sentence must not fail either
+            return f"comparing the terms of {v!r} and {spellings[0]!r} raises {type(ex).__name__}: {ex}", True
+        if not same:
             return f"{v!r} and {spellings[0]!r} give different terms: {m.terms} / {ref.terms}", True
         try:
             both = model_description(f"y ~ {spellings[0]} + {v}")
